@@ -196,7 +196,7 @@ func verifyFunction(P *Program, S *Specs, fn *ssa.Function, ct *Contract, prop s
 	// every call-site clause of the contract must have matched a program point (else it silently checks nothing)
 	if ct != nil {
 		for i, st := range ct.Sites {
-			if ex.siteMatched[i] || !clauseApplies(st.Cl, prop) {
+			if ex.siteMatched[i] || !clauseApplies(st.Cl, prop) || st.Kind == "never" {
 				continue
 			}
 			if st.Kind == "ghost" && len(st.Cl.Prop) == 0 && st.Ghost != nil {
